@@ -142,6 +142,9 @@ def g1_presence(site, tests):
     """unwrap(R): a dominating edge on which R is Some/Ok, R unchanged in between."""
     f = site.fn
     R = site.ops[0]
+    # x.take().unwrap(): present exactly when x was
+    while R[0] == "call" and R[1] in ("std::option::Option::take", "std::option::Option::as_ref", "std::option::Option::as_mut", "std::option::Option::as_deref", "std::option::Option::as_deref_mut") and R[2]:
+        R = R[2][0]
     want_some = site.what.rsplit("::", 1)[1] in ("unwrap", "expect")
     cands = []
 
